@@ -149,6 +149,8 @@ class Session:
         self.closed = False
         self.tagged_count = {}
         self.pop3 = False
+        self.select_hint = None  # mailbox being SELECTed (for stamping its EXISTS)
+        self.next_stamp = None  # uid list as of generation of the next pushed item
 
     @property
     def handler(self):
@@ -173,7 +175,11 @@ class Session:
             mbox = self.proxy.cmd_processor.mbox if not self.pop3 else None
         except AttributeError:
             mbox = None
+        if mbox is None and self.select_hint and w.server is not None:
+            mbox = w.server.active_mailboxes.get(self.select_hint)
         srv = list(mbox.uids) if mbox is not None else None
+        if self.next_stamp is not None:
+            srv = list(self.next_stamp)
         for r, d in items:
             d["g"] = w.gseq
             d["vt"] = round(w.loop.time(), 3)
